@@ -121,3 +121,13 @@ package dagprocessor
 //@   requires len(events) <= 4294967295 && forall(i, 0, len(events), events[i] != nil && events[i].Size() >= 0)
 //@   modifies f.eventsSemaphore.processing, f.eventsSemaphore.maxProcessing, gTryLast
 //@   ensures  [busy] !gTryLast ==> result == ErrBusy
+//@
+//@ // Stop: the ordering buffer is cleared (which reports every still-buffered event released) only AFTER the worker
+//@ // goroutines have exited -- a task that is still running could otherwise push an event into the cleared buffer, and that
+//@ // event would never be released. Stated as the call-site condition of Clear: the wait on the processor's wait group
+//@ // has happened.
+//@ func (*Processor).Stop
+//@   requires f != nil && f.eventsSemaphore != nil && f.eventsSemaphore.cond != nil && bufinv(f.buffer)
+//@   modifies f.eventsSemaphore.maxProcessing, gBroadcastN, gBroadcastRecv, gWgWaitN, gWgWaitRecv, all(dagordering.event).released, all(dagordering.event).err, gRelCnt[*], f.buffer.incompletes.lru.items[*], f.buffer.incompletes.lru.weight, lel[f.buffer.incompletes.lru.evictList], llen[f.buffer.incompletes.lru.evictList], lidx[*], lown[*], nEvict, gEvictKey, gEvictVal, all(simplewlru.entry).value, all(simplewlru.entry).weight
+//@   at call dagordering.EventsBuffer).Clear[1] requires [afterwait] gWgWaitN == old(gWgWaitN) + 1
+//@   ensures  gWgWaitN == old(gWgWaitN) + 1 && f.eventsSemaphore.maxProcessing.Num == 0
